@@ -76,7 +76,10 @@ func (r *ComDoc) writeShortSAT() error {
 		}
 		previous = sector
 	}
-	r.SAT[previous] = SecIDEndOfChain
+	if previous != SecIDEndOfChain {
+		// (a container without short streams has no table to terminate)
+		r.SAT[previous] = SecIDEndOfChain
+	}
 	r.Header.SSATNextSector = first
 	r.Header.SSATSectorCount = uint32(len(freeList))
 	return nil
@@ -130,6 +133,12 @@ func (r *ComDoc) writeShortSector(shortSector SecID, content []byte) error {
 	bigSectorIndex := int(shortSector) * r.ShortSectorSize / r.SectorSize
 	offset := int(shortSector)*r.ShortSectorSize - bigSectorIndex*r.SectorSize
 	root := &r.Files[r.rootStorage]
+	if root.NextSector < 0 {
+		// no short-sector stream yet: start one
+		sector := r.makeFreeSectors(1, false)[0]
+		r.SAT[sector] = SecIDEndOfChain
+		root.NextSector = sector
+	}
 	bigSectorID := root.NextSector
 	for ; bigSectorIndex > 0; bigSectorIndex-- {
 		next := r.SAT[bigSectorID]
